@@ -204,7 +204,8 @@ def fifo(ctx, prog):
                     sa = flatten_src(provenance(b, st["rv"]["a"], through_calls=[r"ops::Try>::branch$"]))
                     sb = flatten_src(provenance(b, st["rv"]["b"], through_calls=[r"ops::Try>::branch$"]))
                     allp = sa + sb
-                    if any(s.kind == "param" and s.l == 2 for s in allp) and any(s.kind == "call" and s.path.endswith("pop_front") for s in allp):
+                    # the oldest entry: popped, or looked at with front() before it is popped
+                    if any(s.kind == "param" and s.l == 2 for s in allp) and any(s.kind == "call" and re.search(r"VecDeque::<T, A>::(pop_front|front)$", s.path) for s in allp):
                         cmp_ok = True
         if pops and cmp_ok:
             ctx.ok(rule, b.id, "pops the front entry and compares it with the acknowledged id")
